@@ -197,6 +197,11 @@ def xpuCore (kind cls ut ft num fin key mods sh form bt sl sk : String) (rest : 
         else if rest = [] ∧ KeyEncUni.legacyChar key sh mods ≠ some seqL then "FAIL generator/parser: legacy sequence differs from Spec.legacyChar"
         else if rest ≠ [] ∧ (seqL ≠ .print (produced :: rest) ∨ !fm.withText ∨ mods > 1) then "FAIL generator/parser: legacy sequence is not the grapheme cluster"
         else if rest ≠ [] ∧ showKey kl ≠ showKey kk then s!"FAIL xpg[{kind} {cls}] the two reports of the cluster decode to different events: {showKey kl} vs {showKey kk}"
+        else if cls.startsWith "outside:" then
+          -- a code point that is not its own lower case is not a kitty key code (the protocol reports the lower-case
+          -- form of the key): run on the real code, compared with the model, not judged — unless the claim is wrong
+          (if u.toLower key ≠ key then "-"
+           else s!"FAIL xpu[{kind} {cls}] the key {key} is its own lower case: it is a kitty key code and must be judged")
         else match impl.splitOn "|" with
         | [a, b, c, d] =>
           if a ≠ b then s!"FAIL xpu[{kind} {cls}] String() differs between the legacy and the kitty report: {a} vs {b}"
@@ -224,6 +229,16 @@ def stepUni (op : List String) (impl : String) : Option String :=
                else "FAIL AsciiAgree (hypothesis of self_match) does not hold of Go's unicode tables"
       some s!"{model}\t{impl}\t{v}"
     | _, _ => none
+  | ["hypl", ut] =>
+    match parseU? ut with
+    | some t =>
+      let bad := t.filter fun row => row.flags / 2 % 2 == 1 && row.up != row.r &&
+        (match findRow t row.up with | some U => U.lo == U.r | none => true)
+      let model := if bad.isEmpty then "holds" else "fails"
+      let v := if bad.isEmpty ∧ impl = "holds" then "ok"
+               else s!"FAIL UpperHasLower (law used by cross_protocol_char_plain_keycode) does not hold of Go's unicode tables: {bad.map (·.r)}"
+      some s!"{model}\t{impl}\t{v}"
+    | none => none
   | ["hyp", kind, ut, ct, Ct, wt] =>
     match parseU? ut, ct.toInt?, Ct.toInt? with
     | some t, some c, some C =>
